@@ -69,14 +69,14 @@ Definition q_round (m : rmode) (x : Q) : Z :=
 (** ** Round to nearest even with 53 significant bits (IEEE binary64 in its normal range; no overflow/subnormals) *)
 Definition scaled (n d e : Z) : Q :=       (* (n/d) / 2^e *)
   if 0 <=? e then Qmake n (Z.to_pos (d * 2 ^ e)) else Qmake (n * 2 ^ (- e)) (Z.to_pos d).
+(** the exponent: the first [e >= e0] with [floor((n/d) / 2^e) < 2^53] (at most three steps are ever needed) *)
+Fixpoint pick_exp (n d : Z) (k : nat) (e : Z) : Z :=
+  match k with
+  | O => e
+  | S k' => if Qfloor (scaled n d e) <? 2 ^ 53 then e else pick_exp n d k' (e + 1)
+  end.
 Definition rn64_pos (n d : Z) : Q :=       (* n, d > 0 *)
-  let e0 := Z.log2 n - Z.log2 d - 53 in
-  let pick := fix pick (k : nat) (e : Z) : Z :=
-    match k with
-    | O => e
-    | S k' => if Qfloor (scaled n d e) <? 2 ^ 53 then e else pick k' (e + 1)
-    end in
-  let e := pick 3%nat e0 in
+  let e := pick_exp n d 3%nat (Z.log2 n - Z.log2 d - 53) in
   let m := q_round_he (scaled n d e) in
   if 0 <=? e then inject_Z (m * 2 ^ e) else Qmake m (Z.to_pos (2 ^ (- e))).
 Definition rn64 (x : Q) : Q :=
